@@ -67,6 +67,15 @@ Theorem C17_never_sits_on_next_chunk_partial : forall L c np anc es s o,
 Proof. exact never_sits_on_next_chunk. Qed.
 Print Assumptions C17_never_sits_on_next_chunk_partial.
 
+(** A failed (timed out / rejected) chunk at the head of the retry queue is re-requested as soon
+    as a peer is free and a fetch slot is open, however full the connect queue is. *)
+Theorem C17_retry_task_always_schedulable : forall k c s p fr t r,
+  free s = p :: fr -> (length (running s) < max_tasks c)%nat ->
+  retry s = t :: r -> (0 < t_retry t)%nat -> all_bad s = false ->
+  exists s' outs e, schedule (S k) c s = (s', OReq (p_no p) (t_hashes t) :: outs, e).
+Proof. exact retry_task_always_schedulable. Qed.
+Print Assumptions C17_retry_task_always_schedulable.
+
 (** ... every error is reported together with leaving the loop, after which nothing more
     is sent. *)
 Theorem C17_error_stops : forall c s o e s' o',
